@@ -235,6 +235,12 @@ class Interp:
             return k_not(self._tv(e.operand))
         if isinstance(e, ast.Constant):
             return bool(e.value)
+        if isinstance(e, ast.Compare) and len(e.ops) == 1 and isinstance(e.left, ast.Constant) and isinstance(e.comparators[0], ast.Constant) \
+                and isinstance(e.ops[0], (ast.Is, ast.IsNot, ast.Eq, ast.NotEq)):
+            # two literals: `None is not None`, `'a' == 'b'` (a local that the path bound to a literal)
+            same = (e.left.value is e.comparators[0].value) if isinstance(e.ops[0], (ast.Is, ast.IsNot)) and (e.left.value is None or e.comparators[0].value is None or isinstance(e.left.value, bool)) \
+                else (e.left.value == e.comparators[0].value and type(e.left.value) is type(e.comparators[0].value))
+            return same if isinstance(e.ops[0], (ast.Is, ast.Eq)) else not same
         if isinstance(e, ast.NamedExpr):
             return self._tv(e.value)
         r = self.atom(e)
